@@ -45,6 +45,8 @@ structure Os where
   files : Path → Option Bytes := fun _ => none
   dirs : Path → Bool := fun _ => false
   log : List Ev := []
+  /-- ghost: how many `file_write` calls have reported failure so far (never read by the model) -/
+  wfails : Nat := 0
 
 /-- file-system update: `p` now holds `b` -/
 def setFile (files : Path → Option Bytes) (p : Path) (b : Bytes) : Path → Option Bytes :=
